@@ -236,11 +236,15 @@ func (s *C17Spec) expectation(c *Ctx, tape []byte) cliExpect {
 			honour = "dontcare"
 		default:
 			p := ratToFloat(m.SuccessProb())
-			fail := math.Pow(1-p, 200)
-			if p == 0 || fail > 1e-9*(1+1e-3) {
+			if p == 0 {
 				honour = "no"
-			} else if fail > 1e-9*(1-1e-3) {
-				honour = "dontcare"
+			} else {
+				switch e, _ := refusalExpectation(p, float64(cfg.Length)*math.Log2(float64(len(m.A))), 200, 1e-9); e {
+				case "error":
+					honour = "no"
+				case "dontcare":
+					honour = "dontcare"
+				}
 			}
 		}
 		if honour == "dontcare" || (s.Entropy && honour == "no") {
@@ -344,7 +348,7 @@ func init() {
 		Technique: "deterministic simulation of the opgen process: child built from the working tree with the verif tag, with simulator-owned argv, word-list file state, stdio pipes and a file-backed random tape (hook H7); stdout compared exactly with the equivalent library recipe evaluated in-process on the same tape; usage / refusal / file-fault exit statuses checked",
 		Rule:      "case = one opgen invocation; distinct by hash of (argv shape, file state); non-trivial = at least one flag besides the subcommand, or a file, or an error path",
 		Assumptions: []string{"the tagged binary differs from the shipped one only by hook H7's init (tape instead of the OS source, sorted index orders)", "don't-care: unknown words inside --allow/--require/--exclude, unknown --separator/--capitalize values, explicit empty class lists, -h/--help, --entropy of a recipe the library refuses", "this is mostly configuration exploration; simulation contributes the deterministic child process (exact oracle) and the file faults"},
-		Episodes:    map[string]int{"quick": 640, "thorough": 20000},
+		Episodes:    map[string]int{"quick": 4000, "thorough": 40000},
 		TwiceEvery:  9,
 		Real:        []string{"cmd/opgen (real process)", "package spg inside the child", "flag package (std)"},
 		Simulated:   []string{"argv", "word-list file: valid, duplicated, empty, whitespace only, missing, a directory", "stdout/stderr pipes", "the child's random source (tape file via VERIF_TAPE)"},
